@@ -4,7 +4,7 @@ import gen
 PID = 'C12'
 RULE = ("per history: a map of a random numeric kind/sentinel is filled by 2-5 updates (shuffled growth, values of "
         "both signs, some pixels cleared), then a sequence of scalar operators is applied both in place (on twin a) "
-        "and copying (on twin b, result renamed to b), with n_valid queried around each step; plus apply_mask with "
+        "and copying (on twin b, result renamed to b; the result is sometimes written to first, growth included), with n_valid queried around each step; plus apply_mask with "
         "integer / wide-mask maps (no bits, mask_bits, mask_bit_arr; in place and copying; negative mask values), "
         "astype over the dtype matrix with default/custom sentinels, and as_bit_packed_map; after each step full "
         "dense values, valid set, layout of operands and results are compared with the Lean model; "
@@ -39,7 +39,14 @@ def hist_scalar(rng):
         ln = gen.scalar_op_line(rng, c, inplace=True)
         h += ['nvalid a', ln, 'nvalid a', 'state a']
         ln2 = ln.replace(' a ', ' b ', 1).replace(' inplace=1', ' r=t')
-        h += [ln2, 'state b', 'state t', 'copy t r=b', 'vals a', 'vals b', 'valid a', 'valid b']
+        h += [ln2, 'state b', 'state t']
+        if rng.random() < 0.4:
+            # the result is a map like any other: keep writing to it (growth into new coverage pixels included)
+            tcfg = twin(c, 't')
+            for _ in range(rng.randint(1, 2)):
+                h += [gen.upd_line(rng, tcfg), 'state t']
+            h += ['vals t', 'valid t']
+        h += ['copy t r=b', 'vals a', 'vals b', 'valid a', 'valid b']
     return h
 
 
